@@ -58,6 +58,72 @@ def rule_r1(ctx: Ctx) -> None:
     ctx.floor("C15.R1", n, 25, "Iterator/Iterable-typed parameters")
 
 
+def _small_scope_counterexample(ctx: Ctx, f: FunctionInfo, kname: str, pname: str) -> Optional[str]:
+    """interpret a leaf step's iterate (no sub-steps) with n = 1..4 symbolic individuals and every 1 <= k <= n, the per-individual draw scripted to
+    0.0 and to 1.0; representation.mutate / crossover return fresh genotypes; returns a description of the first fully followed run whose number
+    of yields differs from k"""
+    from ..modelinterp import Budget, Interp, Sym, UNKNOWN
+    if any(isinstance(c, ast.Call) and isinstance(c.func, ast.Attribute) and c.func.attr in ("apply", "iterate") and not is_self_attr(c.func)
+           for c in walk_local(f.node, include_nested=True)):
+        return None
+    for n_ in (1, 2, 3, 4):
+        for k_ in range(1, n_ + 1):
+            for draw in (0.0, 1.0):
+                cnt = {"k": 0}
+
+                def fresh(tag):
+                    cnt["k"] += 1
+                    return Sym(f"{tag}{cnt['k']}")
+
+                def call_model(it, call, env, args, kwargs):
+                    nm = call_name(call)
+                    if nm in ("random_float", "random") and isinstance(call.func, ast.Attribute):
+                        return draw
+                    if nm == "crossover" and isinstance(call.func, ast.Attribute) and not is_self_attr(call.func):
+                        return [fresh("geno"), fresh("geno")]
+                    if nm == "mutate" and isinstance(call.func, ast.Attribute) and not is_self_attr(call.func):
+                        return fresh("geno")
+                    if nm == "Individual" and isinstance(call.func, ast.Name):
+                        return fresh("child")
+                    if nm in ("debug", "info", "warning"):
+                        from ..modelinterp import _NONE
+                        return _NONE
+                    if nm == "isinstance":
+                        return True
+                    return None
+                it = Interp(ctx.prog, f.cls, lambda *_: None, call_model, max_depth=6, max_traces=2)
+                it.strict_iter = True
+                env = {}
+                for q in f.params:
+                    env[q] = Sym(q)
+                env["self"] = Sym("self")
+                env[pname] = [Sym(f"ind{i}") for i in range(n_)]
+                env[kname] = k_
+                env["self.probability"] = 0.5
+                try:
+                    runs = it.run(f, env)
+                except Budget:
+                    return None
+                if len(runs) != 1:
+                    return None
+                trace, rv, notes = runs[0]
+                if notes or any(e.kind == "raise" for e in trace):
+                    return None
+                ys = 0
+                for e in trace:
+                    if e.kind == "yield":
+                        if e.name == "from":
+                            if not isinstance(e.args[0], list):
+                                return None
+                            ys += len(e.args[0])
+                        else:
+                            ys += 1
+                if ys != k_:
+                    return (f"with a population of {n_} individual(s), target_size {k_} and every per-individual draw equal to {draw} the step yields {ys} individual(s), "
+                            f"not {k_}: the next generation does not have the requested size")
+    return None
+
+
 def _param_named(f: FunctionInfo, cands: tuple[str, ...]) -> Optional[str]:
     for c in cands:
         if c in f.params:
@@ -126,6 +192,13 @@ def rule_r2(ctx: Ctx) -> None:
         for a in yc.assumptions:
             if a not in ctx.assumptions:
                 ctx.assumptions.append(a)
+        # a small-scope counterpart: whatever the spelling, the step is interpreted on 1..4 individuals for every k <= n and must yield k;
+        # only a fully followed run with another count is a finding (it decides nothing when it finds none)
+        if pname is not None and f.name == "iterate":
+            cex = _small_scope_counterexample(ctx, f, kname, pname)
+            if cex is not None:
+                n += 1
+                ctx.ob("C15.R2", f, f.node, "yields exactly target_size on populations of 1..4 individuals (finite-model interpretation)", False, cex)
     ctx.floor("C15.R2", n, 20, "yield-count paths over steps and initializers")
     # a failed attempt is retried until it yields: a yield inside a try whose handler swallows the exception must sit in a loop that
     # can only be left by a successful yield (a counter loop, or 'while True' left by a break / return after the yield)
